@@ -17,7 +17,11 @@ S0 == {SAcct(a, od) : a \in {"a", "b"}, od \in {-1, 2, -2}} \cup {SAcct("world",
 S1 == S0 \cup {SMax(cp, s) : cp \in {1, 3}, s \in S0} \cup {SSeq(<<s, t>>) : s, t \in S0}
 S2deep == {SMax(cp, s) : cp \in {1, 3}, s \in S1} \cup {SSeq(<<s, t>>) : s \in S1, t \in S1} \cup {SSeq(<<s, t, u>>) : s, t, u \in S0}
 PortSets == {<<Por(1, 2), Por(1, 2)>>, <<Por(1, 3), Por(2, 3)>>, <<Por(1, 3), Remaining>>, <<Remaining, Por(3, 4)>>,
-             <<Por(1, 2), Por(1, 4)>>, <<Por(2, 3), Por(2, 3)>>, <<Por(1, 2), Por(1, 2), Remaining>>}
+             <<Por(1, 2), Por(1, 4)>>, <<Por(2, 3), Por(2, 3)>>, <<Por(1, 2), Por(1, 2), Remaining>>,
+             \* portions given by variables (negative denominator): with `remaining`; alone (refused whatever their values);
+             \* next to a literal that already makes 100% or that does not
+             <<Por(1, -3), Remaining>>, <<Por(1, -2), Por(1, -2)>>, <<Por(1, -3), Por(1, -3)>>, <<Por(1, 2), Por(1, -2)>>,
+             <<Por(1, -4), Por(1, 2), Remaining>>}
 Port3Sets == {<<Por(1, 3), Por(1, 3), Remaining>>, <<Por(1, 4), Por(1, 4), Por(1, 2)>>, <<Por(1, 7), Por(2, 7), Remaining>>,
               <<Remaining, Por(1, 3), Remaining>>}
 SA == {SAllot(ps, <<s, t>>) : ps \in {p \in PortSets : Len(p) = 2}, s, t \in S0}
@@ -41,6 +45,8 @@ Bal(a, b) == [x \in {"a", "b", "x", "y", "world"} |-> IF x = "a" THEN a ELSE IF 
 BalsWide == {Bal(a, b) : a \in {-1, 0, 2, 5}, b \in {0, 3}}
 BalsPos == {Bal(a, b) : a \in {2, 5}, b \in {0, 3}}
 
+S3 == {SSeq(<<SMax(cp, SAcct(x, -1)), SAcct(y, o), SAcct(x, o2)>>) : cp \in {1, 3}, x \in {"a", "b"}, y \in {"a", "b", "world"}, o \in {-1, 2}, o2 \in {-1, 2}}
+      \cup {SSeq(<<SAcct(x, -1), SMax(cp, SAcct(y, -1)), SMax(cp, SAcct(x, 2))>>) : cp \in {1, 3}, x \in {"a", "b"}, y \in {"a", "b"}}
 PctPorts == {<<Por(41, 2000), Remaining>>, <<Por(101, 10000), Por(1, 16), Remaining>>, <<Por(21, 2000), Por(1979, 2000)>>,
              <<Por(1, 40), Por(3, 80), Remaining>>}
 PctSrc == {SAcct("world", -1), SAcct("a", -1)}
@@ -64,6 +70,11 @@ Cases ==
       [] Family = "dst1"    -> {[sends |-> <<Send(m, s, d)>>, bal |-> b] : m \in Amts, s \in SrcFew, d \in D1, b \in BalsPos}
       [] Family = "dst2"    -> {[sends |-> <<Send(m, s, d)>>, bal |-> b] : m \in Amts, s \in SrcFew, d \in RandomSubset(SampleN, D2deep), b \in BalsPos}
       [] Family = "prog2"   -> {[sends |-> <<s1, s2>>, bal |-> b] : s1, s2 \in SendPal, b \in BalsWide}
+      \* ordered sources of three entries where one account stands at two places that are not adjacent (under a cap first, then
+      \* by itself), alone and followed by a second send that uses the account again
+      [] Family = "src3"    -> {[sends |-> <<Send(m, s, DAcct("x"))>>, bal |-> b] : m \in {-1, 1, 3, 4, 7}, s \in S3, b \in BalsWide}
+                               \cup {[sends |-> <<Send(m, s, DAcct("x")), Send(m2, SAcct(a, -1), DAcct("y"))>>, bal |-> b]
+                                        : m \in {1, 3, 4}, m2 \in {1, 3, -1}, s \in S3, a \in {"a", "b"}, b \in BalsPos}
       \* portions whose percentage has decimals with a leading zero (2.05%, 1.01%, 6.25%), at amounts where they matter
       [] Family = "pct"     -> {[sends |-> <<Send(m, s, d)>>, bal |-> BalPct(a, b)] : m \in {7, 100, 4001}, s \in PctSrc, d \in PctDst,
                                                                                        a \in {0, 50, 5000}, b \in {0, 4000}}
